@@ -56,4 +56,88 @@ func PairsFunc
   ensures[pairs] forall k :: 0 <= k && k < loglen(callback) ==> logarg(callback, 0, k) == slice[k] && logarg(callback, 1, k) == slice[k+1]
   loop 0 invariant 0 <= i && i <= lim && lim == len(slice) - 1 && loglen(callback) == i
   loop 0 invariant forall k :: 0 <= k && k < i ==> logarg(callback, 0, k) == slice[k] && logarg(callback, 1, k) == slice[k+1]
+
+// ---------------------------------------------------------------- C12
+
+func Insert
+  property C12
+  requires slice != nil && 0 <= index && index <= len(*slice)
+  ensures[len]    len(*slice) == old(len(*slice)) + 1
+  ensures[before] forall k :: 0 <= k && k < index ==> (*slice)[k] == old((*slice)[k])
+  ensures[at]     (*slice)[index] == value
+  ensures[after]  forall k :: index < k && k < len(*slice) ==> (*slice)[k] == old((*slice)[k-1])
+  ensures[base]   old(len(*slice)) < old(cap(*slice)) ==> base(*slice) == old(base(*slice)) && off(*slice) == old(off(*slice))
+  ensures[grown]  old(len(*slice)) == old(cap(*slice)) ==> fresh(*slice)
+  assigns *slice, elems(*slice, 0, len(*slice) + 1)
+
+func InsertSlice
+  property C12
+  requires slice != nil && 0 <= index && index <= len(*slice)
+  requires base(values) != base(*slice) || len(values) == 0
+  ensures[len]    len(*slice) == old(len(*slice)) + len(values)
+  ensures[before] forall k :: 0 <= k && k < index ==> (*slice)[k] == old((*slice)[k])
+  ensures[block]  forall k :: 0 <= k && k < len(values) ==> (*slice)[index + k] == old(values[k])
+  ensures[after]  forall k :: index + len(values) <= k && k < len(*slice) ==> (*slice)[k] == old((*slice)[k - len(values)])
+  assigns *slice, elems(*slice, 0, len(*slice) + len(values))
+
+func Remove
+  property C12
+  requires slice != nil && 0 <= index && index < len(*slice)
+  ensures[len]    len(*slice) == old(len(*slice)) - 1
+  ensures[before] forall k :: 0 <= k && k < index ==> (*slice)[k] == old((*slice)[k])
+  ensures[after]  forall k :: index <= k && k < len(*slice) ==> (*slice)[k] == old((*slice)[k+1])
+  ensures[base]   base(*slice) == old(base(*slice)) && off(*slice) == old(off(*slice))
+  assigns *slice, elems(*slice)
+
+func RemoveSlice
+  property C12
+  requires slice != nil && 0 <= index && 0 <= length && index + length <= len(*slice)
+  ensures[len]    len(*slice) == old(len(*slice)) - length
+  ensures[before] forall k :: 0 <= k && k < index ==> (*slice)[k] == old((*slice)[k])
+  ensures[after]  forall k :: index <= k && k < len(*slice) ==> (*slice)[k] == old((*slice)[k+length])
+  ensures[base]   base(*slice) == old(base(*slice)) && off(*slice) == old(off(*slice))
+  assigns *slice, elems(*slice)
+
+func Fill
+  property C12
+  ensures[all] forall k :: 0 <= k && k < len(slice) ==> slice[k] == value
+  assigns elems(slice)
+  loop 0 invariant 1 <= i
+  loop 0 invariant forall k :: 0 <= k && k < min(i, len(slice)) ==> slice[k] == value
+
+func Repeat
+  property C12
+  requires count >= 0
+  ensures[len]   len(result) == count
+  ensures[all]   forall k :: 0 <= k && k < count ==> result[k] == value
+  ensures[fresh] fresh(result)
+
+func Reverse
+  property C12
+  ensures[rev] forall k :: 0 <= k && k < len(slice) ==> slice[k] == old(slice[len(slice) - 1 - k])
+  assigns elems(slice)
+  loop 0 invariant 0 <= i && j == len(slice) - 1 - i && i <= len(slice)/2
+  loop 0 invariant forall k :: 0 <= k && k < i ==> slice[k] == old(slice[len(slice) - 1 - k]) && slice[len(slice) - 1 - k] == old(slice[k])
+  loop 0 invariant forall k :: i <= k && k <= j ==> slice[k] == old(slice[k])
+
+func Concat
+  property C12
+  ensures[len]   len(result) == len(a) + len(b)
+  ensures[a]     forall k :: 0 <= k && k < len(a) ==> result[k] == a[k]
+  ensures[b]     forall k :: 0 <= k && k < len(b) ==> result[len(a) + k] == b[k]
+  ensures[fresh] fresh(result)
+
+func Clone
+  property C12
+  ensures[len]   len(result) == len(slice)
+  ensures[same]  forall k :: 0 <= k && k < len(slice) ==> result[k] == slice[k]
+  ensures[fresh] fresh(result)
+
+func Grow
+  property C12
+  requires n >= 0
+  ensures[len]    len(result) == len(slice) + n
+  ensures[prefix] forall k :: 0 <= k && k < len(slice) ==> result[k] == old(slice[k])
+  ensures[zeros]  forall k :: len(slice) <= k && k < len(result) ==> result[k] == zero(E)
+  assigns elems(slice, len(slice), len(slice) + n)
 @*/
